@@ -1,46 +1,46 @@
 import JL.Generated.Fns
+import JL.Lemmas.TieLoops
 import JL.Tie.get
 import JL.Tie.split_with_escape
 /-! tie: `get_str_key`, as translated from the crate's current source, is the model's function - for every input -/
 namespace JL.Tie
-open JL
+set_option linter.unusedSimpArgs false  -- which of the listed facts are used depends on how the source is spelled
+open JL JL.Lemmas.TieLoops
 
-/-- a left fold over path segments with an `Option` accumulator whose step is `Data.step` on a present value is `Data.walk` -/
-theorem fold_walk (f : Option Json → Str → Option Json) (hn : ∀ seg, f none seg = none)
-    (hs : ∀ acc seg, f (some acc) seg = Data.step acc seg) :
-    ∀ (segs : List Str) (acc : Json), segs.foldl f (some acc) = Data.walk segs acc
-  | [], acc => rfl
-  | seg :: rest, acc => by
-      rw [List.foldl_cons, hs, Data.walk]
-      cases h : Data.step acc seg with
-      | some v => exact fold_walk f hn hs rest v
-      | none =>
-          simp only
-          induction rest with
-          | nil => rfl
-          | cons s r ih => rw [List.foldl_cons, hn]; exact ih
-
+/- The walk along the path segments may be a `fold` with an `Option` accumulator or a `for` loop over `let mut current` with
+`?`; `rs_loop_opt` brings either to `List.foldlM Data.step`, which is the model's `Data.walk` (`walk_eq_foldlM`). Before that,
+the emptiness test on the key (however it is spelled) and the `match` on the kind of `data` are decided by case analysis, so
+that the loop stands in the goal without bound variables. The step equation is proved by splitting on everything `Data.step`
+looks at and `simp [rs, …]` with the facts so obtained. -/
 theorem get_str_key (data : Json) (k : Str) : Gen.get_str_key data k = Data.getStrKey data k := by
   unfold Gen.get_str_key Data.getStrKey
+  simp only [walk_eq_foldlM, split_with_escape]
   cases k with
   | nil => simp [rs]
   | cons c cs =>
-      have hk : Rs.eq (c :: cs) ([] : Str) = false := by simp [rs]
-      simp only [hk, Bool.false_eq_true, if_false, List.isEmpty_cons]
-      -- the step of the translated fold is `Data.step` on a present value, and keeps `none`
-      have hw : ∀ (f : Option Json → Str → Option Json) (acc : Json), (∀ seg, f none seg = none) →
-          (∀ a seg, f (some a) seg = Data.step a seg) →
-          Rs.fold (Gen.split_with_escape (c :: cs) '.') (some acc) f = Data.walk (Data.splitWithEscape (c :: cs) '.') acc := by
-        intro f acc hn hs
-        rw [split_with_escape]
-        exact fold_walk f hn hs _ acc
-      cases data <;> first
-        | rfl
-        | (refine hw _ _ (fun seg => rfl) (fun a seg => ?_)
-           cases a <;> simp only [Data.step] <;> first
-             | rfl
-             | (simp only [rs, get]
-                cases Data.parseI64 seg <;> simp
-                try (rename_i s i; cases Data.get s i <;> simp)))
+      -- the key is not empty, whichever way the code asks
+      have e1 : Rs.is_empty (c :: cs) = false := rfl
+      have e2 : Rs.eq (c :: cs) ([] : Str) = false := rfl
+      have e3 : Rs.eq ([] : Str) (c :: cs) = false := rfl
+      have e4 : (c :: cs : Str).isEmpty = false := rfl
+      simp only [e1, e2, e3, e4, Bool.false_eq_true, if_false, Bool.not_false, if_true]
+      cases data
+      all_goals try dsimp only
+      all_goals
+        rs_loop_opt Data.step
+        intro a seg
+        cases a with
+        | obj kvs => cases hl : Json.lookup seg kvs <;> simp [rs, Data.step, hl]
+        | arr xs =>
+            cases hp : Data.parseI64 seg with
+            | none => simp [rs, Data.step, hp]
+            | some i => cases hg : Data.get xs i <;> simp [rs, Data.step, get, hp, hg]
+        | str s =>
+            cases hp : Data.parseI64 seg with
+            | none => simp [rs, Data.step, hp]
+            | some i => cases hg : Data.get s i <;> simp [rs, Data.step, get, hp, hg]
+        | null => simp [rs, Data.step]
+        | bool b => simp [rs, Data.step]
+        | num n => simp [rs, Data.step]
 
 end JL.Tie
